@@ -827,8 +827,16 @@ func ruleKMeansUpdate(r *Run, rule string) {
 						}
 					}
 				case *ssa.Call:
-					if b, ok := x.Call.Value.(*ssa.Builtin); ok && b.Name() == "clear" && x.Call.Args[0] == cont {
-						fresh = true
+					if b, ok := x.Call.Value.(*ssa.Builtin); ok && b.Name() == "clear" {
+						a := x.Call.Args[0]
+						if a == cont {
+							fresh = true
+						}
+						if ld, ok := a.(*ssa.UnOp); ok {
+							if ia, ok := ld.X.(*ssa.IndexAddr); ok && ia.X == cont {
+								fresh = true // clear(x[i]) for every i
+							}
+						}
 					}
 				}
 			})
